@@ -8,6 +8,7 @@ import (
 	"encoding/json"
 	"fmt"
 	"os"
+	"os/exec"
 	"path/filepath"
 	"sort"
 	"strconv"
@@ -211,3 +212,156 @@ func Deadline(quickS, thoroughS int) time.Time {
 	}
 	return time.Now().Add(time.Duration(quickS) * time.Second)
 }
+
+// ---------------------------------------------------------------- process sharding
+//
+// Checks whose engine is a process-global cooperative scheduler parallelise by
+// re-executing their own test binary: the parent runs N children with
+// VERIF_SHARD=i/N; each child explores its share, prints its own VIOLATION
+// lines and writes a partial coverage map; the parent merges the parts.
+
+// Shard returns (i, n, true) in a child process and (0, 1, false) in the parent.
+func Shard() (int, int, bool) {
+	s := os.Getenv("VERIF_SHARD")
+	if s == "" {
+		return 0, 1, false
+	}
+	var i, n int
+	fmt.Sscanf(s, "%d/%d", &i, &n)
+	return i, n, true
+}
+
+// FinishPart is Finish for a child process.
+func (r *Run) FinishPart(cov map[string]any) {
+	r.mu.Lock()
+	defer r.mu.Unlock()
+	if _, ok := cov["samples"]; !ok {
+		cov["samples"] = r.samples
+	}
+	cov["_violations"] = r.violations
+	kh := map[string]any{}
+	for k, v := range r.knownHits {
+		kh[k] = v
+	}
+	cov["_known"] = kh
+	b, _ := json.Marshal(cov)
+	if err := os.WriteFile(os.Getenv("VERIF_PART"), b, 0o644); err != nil {
+		fmt.Printf("INFRA-ERROR part write: %v\n", err)
+		os.Exit(2)
+	}
+}
+
+// RunShards runs n children of this test binary for testName and merges their
+// coverage: integers are summed ("max*" keys take the maximum), booleans are
+// AND-ed, arrays concatenated (capped), other values taken from the first part.
+func (r *Run) RunShards(testName string, n int) map[string]any {
+	dir := os.Getenv("VERIF_SCRATCH")
+	if dir == "" {
+		dir = os.TempDir()
+	}
+	type res struct {
+		out []byte
+		err error
+	}
+	results := make([]res, n)
+	var wg sync.WaitGroup
+	for i := 0; i < n; i++ {
+		wg.Add(1)
+		go func(i int) {
+			defer wg.Done()
+			cmd := execCommand(os.Args[0], "-test.run", "^"+testName+"$", "-test.timeout", "0", "-test.count", "1")
+			cmd.Env = append(os.Environ(), fmt.Sprintf("VERIF_SHARD=%d/%d", i, n), "VERIF_PART="+filepath.Join(dir, fmt.Sprintf("part-%s-%d.json", r.Property, i)), "GOMAXPROCS=1")
+			out, err := cmd.CombinedOutput()
+			results[i] = res{out, err}
+		}(i)
+	}
+	wg.Wait()
+	merged := map[string]any{}
+	seenKnown := map[string]bool{}
+	for i := 0; i < n; i++ {
+		lines := strings.Split(string(results[i].out), "\n")
+		for li, l := range lines {
+			switch {
+			case strings.HasPrefix(l, "KNOWN-FINDING"):
+				k := l
+				if j := strings.Index(l, "first instance:"); j > 0 {
+					k = l[:j]
+				}
+				if !seenKnown[k] {
+					seenKnown[k] = true
+					fmt.Println(l)
+				}
+			case strings.HasPrefix(l, "VIOLATION "), strings.HasPrefix(l, "INFRA-ERROR"), strings.HasPrefix(l, "  signature="):
+				fmt.Println(l)
+				if strings.HasPrefix(l, "  signature=") && li+1 < len(lines) {
+					fmt.Println(lines[li+1])
+				}
+			}
+		}
+		part := filepath.Join(dir, fmt.Sprintf("part-%s-%d.json", r.Property, i))
+		b, err := os.ReadFile(part)
+		if err != nil {
+			tail := results[i].out
+			if len(tail) > 4000 {
+				tail = tail[len(tail)-4000:]
+			}
+			fmt.Printf("INFRA-ERROR shard %d/%d of %s produced no result (%v)\n%s\n", i, n, r.Property, results[i].err, tail)
+			os.Exit(2)
+		}
+		os.Remove(part)
+		var cov map[string]any
+		if err := json.Unmarshal(b, &cov); err != nil {
+			fmt.Printf("INFRA-ERROR shard part: %v\n", err)
+			os.Exit(2)
+		}
+		for k, v := range cov {
+			switch k {
+			case "_violations":
+				r.violations += int(v.(float64))
+				continue
+			case "_known":
+				for id, c := range v.(map[string]any) {
+					r.knownHits[id] += int(c.(float64))
+				}
+				continue
+			}
+			old, have := merged[k]
+			switch x := v.(type) {
+			case float64:
+				if !have {
+					merged[k] = int(x)
+				} else if strings.HasPrefix(k, "max") || strings.HasSuffix(k, "_bound") || strings.HasSuffix(k, "bound_completed") {
+					if int(x) > old.(int) {
+						merged[k] = int(x)
+					}
+				} else {
+					merged[k] = old.(int) + int(x)
+				}
+			case bool:
+				if !have {
+					merged[k] = x
+				} else {
+					merged[k] = old.(bool) && x
+				}
+			case []any:
+				if !have {
+					merged[k] = x
+				} else if len(old.([]any)) < 12 {
+					merged[k] = append(old.([]any), x...)
+				}
+			default:
+				if !have {
+					merged[k] = v
+				}
+			}
+		}
+	}
+	for k, v := range merged {
+		if a, ok := v.([]any); ok && len(a) > 12 {
+			merged[k] = a[:12]
+		}
+	}
+	return merged
+}
+
+var execCommand = exec.Command
